@@ -122,6 +122,8 @@ def build(variant, drivers, keep=3):
         f.write(" ".join(sorted(known)))
     alld = sorted(known)
     _gen_headers(os.path.join(bdir, "gen"))
+    import gen_reflect
+    gen_reflect.main(BLF, os.path.join(bdir, "gen", "reflect_gen.h"))
     cxx, fl = variant_flags(variant, bdir)
     lines = ["cxx = %s" % cxx, "flags = %s" % " ".join(fl),
              "rule cc", "  command = $cxx $flags -MD -MF $out.d -c $in -o $out",
